@@ -1,7 +1,7 @@
 """C09 — a reused Resizer behaves like a fresh one: scratch-buffer discipline (clauses)."""
 import re
 from ..cfg import Dom, reachable_from
-from ..engines import flow
+from ..engines import flow, index_rules
 from ..engines.ranges import strip_widen
 from ..facts import CheckError
 from ..progs import programs
@@ -295,6 +295,51 @@ def state_independence(rep, prog, rule):
     rep.floor(rule, "branches on scratch-buffer sizes", n, 1)
 
 
+def clone_config(rep, prog, rule):
+    rep.rule(rule, "Resizer::clone carries every field that is not a scratch buffer (Vec<u8>) over "
+             "from self: a clone that re-creates a configuration field (the selected back-end is kept "
+             "both in cpu_extensions and inside mul_div) computes with other settings than the Resizer "
+             "it was cloned from")
+    fs = [f for f in prog.fns.values() if f.name == "<resizer::Resizer as std::clone::Clone>::clone"]
+    if not fs:
+        rep.ok(rule, "Resizer|not-clone", "", "Resizer does not implement Clone")
+        return
+    f = fs[0]
+    rep.touch(f)
+    adt = [k for k in prog.adts if k.endswith("resizer::Resizer")]
+    if len(adt) != 1:
+        rep.unk(rule, "Resizer|fields", f.loc, "struct Resizer not found")
+        return
+    fields = prog.adts[adt[0]]["variants"][0]["fields"]
+    sym = Sym(f)
+    n = 0
+    for b, blk in enumerate(f.blocks):
+        if blk["c"]:
+            continue
+        for j, st in enumerate(blk["s"]):
+            if st[0] == "a" and st[2][0] == "agg" and st[2][1] == "adt" and st[2][2] == adt[0]:
+                for i, op in enumerate(st[2][4]):
+                    name, ty = fields[i][0], fields[i][1] if len(fields[i]) > 1 else ""
+                    if "Vec<u8>" in str(ty):
+                        continue
+                    n += 1
+                    s = fmt(sym.operand(op, (b, j)))
+                    key = "Resizer::clone|%s" % name
+                    if re.search(r"\bself\.%s\b" % re.escape(name), s):
+                        rep.ok(rule, key, f.loc, "%s <- %s" % (name, s[:60]))
+                    elif "self" in s:
+                        rep.bad(rule, key + "|other-field", f.loc,
+                                "the clone's %s is built from %s" % (name, s[:100]))
+                    else:
+                        rep.bad(rule, key + "|dropped", f.loc,
+                                "Resizer::clone does not copy %s from self (it is %s): the clone resizes "
+                                "with other settings than the original, e.g. alpha multiplication on "
+                                "another back-end than the convolution" % (name, s[:100]))
+    if n == 0:
+        rep.unk(rule, "Resizer::clone|shape", f.loc, "no Resizer aggregate in clone")
+    rep.floor(rule, "configuration fields of Resizer", n, 2)
+
+
 def run(rep, tier):
     cfgs = ["x86"] if tier == "quick" else ["x86", "x86-rayon", "arm", "wasm"]
     for cfg, prog in programs(cfgs):
@@ -303,3 +348,5 @@ def run(rep, tier):
         rep.call(slack, rep, prog, "C09.slack")
         rep.call(sizing, rep, prog, "C09.sizing")
         rep.call(state_independence, rep, prog, "C09.state-independence")
+        rep.call(clone_config, rep, prog, "C09.clone-config")
+        rep.call(index_rules.scratch_grow, rep, prog, "C09.scratch-grow")
